@@ -31,7 +31,8 @@ EXPLANATION = (
     "writers, ReadInteger with a stream insertion, ReadEntityRef with STEPwrite_reference, STEPread with STEPwrite "
     "(reader/writer pairs frozen from the run-time library). "
     "Not decided: value preservation (escapes, numeric round trip), byte equality of the second write, header and "
-    "complex-instance serialisation.")
+    "complex-instance serialisation."
+    " (R7) every aggregate reader decides `_null` itself on every path to a successful return. (R8) `*` is written only for an attribute re-declared in a DERIVE clause: every store of an entity into orderedAttr::deriver is reached only where the re-declaring Variable's initializer was seen non-null, and the generator emits MakeDerived() only under that mark. (R12) the string-literal scanner confirms a closing apostrophe by look-ahead (rule of C09).")
 
 SIBLINGS = ["STEPattribute::STEPread", "STEPattribute::STEPwrite", "STEPattribute::asStr", "STEPattribute::set_null",
             "STEPattribute::is_null", "STEPattribute::ShallowCopy", "STEPattribute::StrToVal", "STEPattribute::ValidLevel"]
@@ -520,7 +521,7 @@ def r8_derived_mark(prog, res):
     from engines import is_null_const, enclosing_conditions, conjuncts
     n = 0
 
-    def test_of(cn):
+    def test_of(cn, fn=None, depth=0):
         """(decl of the Variable whose initializer is tested, polarity) of an atomic condition"""
         pol = True
         c = strip(cn)
@@ -545,6 +546,15 @@ def r8_derived_mark(prog, res):
                 c = strip(other)
                 continue
             break
+        if c is not None and c["k"] == "Ref" and c.get("dk") == "local" and fn is not None and depth < 3:
+            # a flag that is initialised once and never assigned again stands for its initialiser
+            ini = [v_ for v_ in fn.walk() if v_["k"] == "Var" and v_.get("d") == c.get("d") and v_.get("ch") and v_["ch"][0] is not None]
+            asg = [a_ for a_ in fn.walk() if a_["k"] == "Assign" and strip(a_["ch"][0]) is not None and strip(a_["ch"][0])["k"] == "Ref" and
+                   strip(a_["ch"][0]).get("d") == c.get("d")]
+            if len(ini) == 1 and not asg:
+                t = test_of(ini[0]["ch"][0], fn, depth + 1)
+                return None if t is None else (t[0], t[1] == pol)
+            return None
         if c is None or c["k"] != "Member" or not (c.get("q") or "").endswith("Variable_::initializer") or not c.get("ch"):
             return None
         b = strip(c["ch"][0])
@@ -581,8 +591,8 @@ def r8_derived_mark(prog, res):
                 bad.setdefault(nd["i"], nd)
             return ts
 
-        def on_edge(cn, br, ts, env):
-            t = test_of(cn)
+        def on_edge(cn, br, ts, env, f=f):
+            t = test_of(cn, f)
             if t is None:
                 return ts
             return tuple(sorted(set(x for x in ts if x[0] != t[0]) | {(t[0], t[1] == br)}))
